@@ -4,6 +4,7 @@ Require Import Wbxml.Model.TablesDefs.
 Require Import Wbxml.Gen.TablesData.
 Require Import Wbxml.Model.Parser.
 Require Import Wbxml.Model.Spec.
+Require Import Wbxml.Model.TreeBuild.
 Require Extraction.
 Require Import ExtrOcamlBasic.
-Extraction "model.ml" main_table parse_with parse bytes_of_string serialize denote denote_with unser decode decode_lang.
+Extraction "model.ml" main_table parse_with parse bytes_of_string serialize denote denote_with unser decode decode_lang tree_from_wbxml build.
